@@ -2226,7 +2226,15 @@ fn drive_str(a: &Args, name: &str) -> Value {
                 let s = objs[o - 1].as_mut().unwrap();
                 let ev = match op {
                     "push" => {
-                        let st = if !pool.is_empty() && rng.chance(1, 5) { rng.pick(&pool).clone() } else { rand_str(&mut rng, profile) };
+                        let st = if profile == "big" {
+                            // lengths around the 20-bit boundary, in a fixed order
+                            let n = [(1usize << 20) - 1, 1 << 20, 3, (1 << 20) + 5, 70_000][pool.len() % 5];
+                            ["x", "y", "z"][pool.len() % 3].repeat(n)
+                        } else if !pool.is_empty() && rng.chance(1, 5) {
+                            rng.pick(&pool).clone()
+                        } else {
+                            rand_str(&mut rng, profile)
+                        };
                         pool.push(st.clone());
                         match s.push(&st) {
                             Ok(Some(i)) => json!({"op":"push","o":o,"s":bj(st.as_bytes()),"ok":true,"has_r":true,"r":i.min(1 << 30)}),
